@@ -241,7 +241,7 @@ func generate(key echx.KeyPair, b base, thorough bool) []fault {
 			if m == nil {
 				continue
 			}
-			f := add("outer-length-field", fmt.Sprintf("off%d%+d", lf[0], d), []string{DE, IP, UM}, tlsref.Record(22, 0x0301, m))
+			f := add("outer-length-field", fmt.Sprintf("off%d%+d", lf[0], d), []string{DE, IP, UM, "eof"}, tlsref.Record(22, 0x0301, m))
 			f.mayBeValid = true
 		}
 	}
@@ -251,7 +251,22 @@ func generate(key echx.KeyPair, b base, thorough bool) []fault {
 		if !thorough && cut > 60 && cut < len(msg)-60 && cut%3 != 0 {
 			continue
 		}
-		add("record-cut", fmt.Sprint(cut), []string{DE}, tlsref.Record(22, 0x0301, msg[:cut]))
+		// a record that holds only the beginning of the message is the first fragment of a hello spanning several records:
+		// (a) the stream ends there: the transport's end is reported (no TLS error class); (b) the message is "continued" by a
+		// record that is not a handshake record: unexpected_message; (c) it is continued by a handshake record with other bytes,
+		// so that the reassembled message is garbage: decode_error (or illegal_parameter)
+		first := tlsref.Record(22, 0x0301, msg[:cut])
+		add("record-cut-then-eof", fmt.Sprint(cut), []string{DE, "eof"}, first)
+		if cut >= 4 && (thorough || cut%5 == 0) {
+			add("record-cut-then-appdata", fmt.Sprint(cut), []string{UM, DE}, append(slices.Clone(first), tlsref.Record(23, 0x0303, []byte{1, 2, 3})...))
+			junk := make([]byte, len(msg)-cut)
+			for i := range junk {
+				junk[i] = 0xA5
+			}
+			f := add("record-cut-then-garbage-continuation", fmt.Sprint(cut), []string{DE, IP}, append(slices.Clone(first), tlsref.Record(22, 0x0303, junk)...))
+			f.mayBeValid = true // the garbage may fall into opaque fields (key share, ECH payload): then the hello is well formed and is handled transparently
+			// and the legal case for comparison is covered by C03/C05/C07 (fragmented hellos)
+		}
 	}
 	_ = rec
 	// F9c truncations inside the encoded inner: -1 on every length field, re-sealed so that it authenticates
@@ -336,11 +351,19 @@ func evalFault(r *ev.Run, key echx.KeyPair, f fault) {
 	case res.Err == nil:
 		if f.mayBeValid {
 			// tolerated iff handled transparently: passthrough of the same bytes or genuine acceptance
-			recs, _ := tlsref.SplitRecords(res.Forwarded)
-			if !res.Accepted && (len(recs) != 1 || !echx.SameRecordModuloVersion(recs[0], f.stream)) {
-				r.Violation("modified:"+k, "length-field mutation neither aborted nor forwarded unchanged", replay)
+			same := len(res.Forwarded) == len(f.stream) && len(f.stream) >= 5 && res.Forwarded[0] == f.stream[0] && bytes.Equal(res.Forwarded[3:], f.stream[3:])
+			if !res.Accepted && !same {
+				r.Violation("modified:"+k, "mutation neither aborted nor forwarded unchanged", replay)
 			}
-			if _, err := tlsref.ParseHelloMsg(f.stream[5:]); err != nil && !res.Accepted {
+			// reassemble the handshake message over the records of the stream and check its framing independently
+			var msg []byte
+			srecs, _ := tlsref.SplitRecords(f.stream)
+			for _, rc := range srecs {
+				if rc[0] == 22 {
+					msg = append(msg, rc[5:]...)
+				}
+			}
+			if _, err := tlsref.ParseHelloMsg(msg); err != nil && !res.Accepted {
 				r.Violation("forwarded-unframed:"+k, "hello whose framing is broken was forwarded instead of aborted", replay)
 			}
 			oc = fmt.Sprintf("still-valid accepted=%v", res.Accepted)
@@ -376,7 +399,7 @@ func alertKey(out []byte) string {
 }
 
 func Run(r *ev.Run) {
-	r.Rule("fault enumeration (E1): for each base hello (3 AEADs x compression on/off x ECH extension first/middle/last) the catalogue: ech_outer_extensions in the outer hello at every position; ECH type inner at every position; unknown ECH types; authentic payload with 5 non-matching/absent outer SNIs; inner without / with outer-type ECH extension; inner not offering TLS 1.3; every padding byte x every bit non-zero; reference list odd/short/long/empty/out-of-order (every adjacent swap)/repeated (every element)/absent (every element)/naming 0xfe0d,0xfd00 at every position/two markers; +-1 on every length field of outer and of encoded inner (re-sealed); record cut at every byte; non-handshake first record; plus all pairs of single faults that compose (multi-fault). distinct = distinct (stream, keys?) inputs")
+	r.Rule("fault enumeration (E1): for each base hello (3 AEADs x compression on/off x ECH extension first/middle/last) the catalogue: ech_outer_extensions in the outer hello at every position; ECH type inner at every position; unknown ECH types; authentic payload with 5 non-matching/absent outer SNIs; inner without / with outer-type ECH extension; inner not offering TLS 1.3; every padding byte x every bit non-zero; reference list odd/short/long/empty/out-of-order (every adjacent swap)/repeated (every element)/absent (every element)/naming 0xfe0d,0xfd00 at every position/two markers; +-1 on every length field of outer and of encoded inner (re-sealed); record cut at every byte (then end of stream / a non-handshake record / a garbage continuation); non-handshake first record; plus all pairs of single faults that compose (multi-fault). distinct = distinct (stream, keys?) inputs")
 	r.Assume("reference sender validated against crypto/tls", "admissible error classes per fault are taken from the property statement and draft §5.1/§7/§7.1; for +-1 length mutations that leave a well-formed hello, transparent handling is admissible")
 	key := echx.NewKey("c04", 42, echx.AllSuites, pubName)
 	if err := c03.SelfValidate(echx.NewKey("c03", 7, echx.AllSuites, "public.example")); err != nil {
